@@ -14,11 +14,15 @@ ROLES = ("FORMED", "BROKEN", "FLEETING")
 
 
 def make_ids(rng: random.Random, n: int, kind: str | None = None) -> list[int]:
-    if kind is None and n >= 2 and rng.random() < 0.06:
-        # ids that double as sentinels in careless code: 0 (falsy) and -1 ("not found" / "no atom") among ordinary ones
+    if kind is None and n >= 2 and rng.random() < 0.08:
+        # ids that double as sentinels in careless code: 0 (falsy) and -1 ("not found" / "no atom") among ordinary
+        # ones, and ids whose Python hashes collide: hash(-1) == hash(-2), hash(x) == hash(x + 2**61 - 1)
         ids = rng.sample(range(2, 10 * n + 20), n)
-        i, j = rng.sample(range(n), 2)
-        ids[i], ids[j] = 0, -1
+        pos = list(range(n))
+        rng.shuffle(pos)
+        special = [0, -1, -2] if rng.random() < 0.7 else [-1, -2, ids[pos[-1]] + 2**61 - 1]
+        for p_, v in zip(pos, special):
+            ids[p_] = v
         return ids
     kind = kind or rng.choice(["range", "range", "shuffled", "sparse", "negative", "large"] * 3 + ["huge"])
     if kind == "range":
@@ -697,6 +701,17 @@ def scale_pg(rng, cls, n):
             k += 1
         if cls in STEREO:
             pg["astereo"][ids[pos]] = ("Tetrahedral", (ids[pos], ids[pos - 1], ids[pos + 1], ids[k - 2], ids[k - 1]), rng.choice((1, -1)))
+    if cls in STEREO:
+        # double-bond-like units near the END of the chain (descriptor atoms at large positions in every index array)
+        for pos in (n - 6, n - 12):
+            if pos - 1 > 0 and not any(abs(pos - c) < 3 or abs(pos + 1 - c) < 3 for c in centres):
+                x, y = ids[pos], ids[pos + 1]
+                hx, hy = ids[k], ids[k + 1]
+                for a_, h_ in ((x, hx), (y, hy)):
+                    pg["atoms"][h_] = {"atom_type": 9 if a_ == x else 1}
+                    pg["bonds"][frozenset((a_, h_))] = {}
+                k += 2
+                pg["bstereo"][frozenset((x, y))] = ("PlanarBond", (ids[pos - 1], hx, x, y, ids[pos + 2], hy), 0)
     # separate small component
     o, h1, h2 = ids[k], ids[k + 1], ids[k + 2]
     pg["atoms"][o] = {"atom_type": 8}
@@ -705,7 +720,8 @@ def scale_pg(rng, cls, n):
     pg["bonds"][frozenset((o, h1))] = {}
     pg["bonds"][frozenset((o, h2))] = {}
     if cls in REACTION:
-        free = [b for b in sorted(pg["bonds"], key=sorted) if not any(ids[c] in b for c in centres)]
+        busy = {ids[c] for c in centres} | {x for d in pg["bstereo"].values() for x in d[1]}
+        free = [b for b in sorted(pg["bonds"], key=sorted) if not (b & busy)]
         for b in rng.sample(free, 4):
             pg["bonds"][b]["reaction"] = rng.choice(ROLES)
     return pg
@@ -971,3 +987,66 @@ def bond_change_only_pair(rng):
         s_ = rng.choice(slots)
         other["bchange"][frozenset((x, y))][s_] = d2
     return pg, sem.pg_relabel(other, random_bijection(rng, other))
+
+
+M61 = 2**61 - 1
+
+
+def _colliding_ids(rng):
+    """two different ids with the same Python hash"""
+    if rng.random() < 0.6:
+        return -1, -2
+    x = rng.randrange(3, 10**6)
+    return x, x + M61
+
+
+def substitution_pg(rng):
+    """StereoCondensedReactionGraph of a substitution at one centre: the leaving group and the incoming group carry
+    ids with colliding hashes, the BROKEN and FORMED descriptors differ in nothing but that id"""
+    cls = "StereoCondensedReactionGraph"
+    pg = sem.pg_empty(cls)
+    L, N = _colliding_ids(rng)
+    c, a, b, d = rng.sample([i for i in range(3, 60) if i not in (L, N)], 4)
+    for x, z in ((c, 6), (a, 1), (b, 9), (d, 17), (L, 35), (N, 53)):
+        pg["atoms"][x] = {"atom_type": z}
+    for x in (a, b, d):
+        pg["bonds"][frozenset((c, x))] = {}
+    pg["bonds"][frozenset((c, L))] = {"reaction": "BROKEN"}
+    pg["bonds"][frozenset((c, N))] = {"reaction": "FORMED"}
+    p = rng.choice((1, -1))
+    lig = [a, b, d]
+    rng.shuffle(lig)
+    k = rng.randrange(4)
+    t1 = lig[:k] + [L] + lig[k:]
+    t2 = lig[:k] + [N] + lig[k:]
+    pg["achange"][c] = {"BROKEN": ("Tetrahedral", (c, *t1), p), "FORMED": ("Tetrahedral", (c, *t2), rng.choice((p, -p)))}
+    return pg
+
+
+def cis_trans_pair_colliding(rng, cls):
+    """(cis, trans) 1,3-disubstituted four-membered rings (or a relabelled copy instead of trans): the two ring
+    neighbours of the centre whose parity differs carry ids with colliding hashes"""
+    i1, i2 = _colliding_ids(rng)
+    pool = [i for i in range(3, 80) if i not in (i1, i2)]
+    ids = rng.sample(pool, 10)
+    c0, c2 = ids[0], ids[1]
+    ring = [c0, i1, c2, i2]
+    pg = sem.pg_empty(cls)
+    for x in ring:
+        pg["atoms"][x] = {"atom_type": 6}
+    for k in range(4):
+        pg["bonds"][frozenset((ring[k], ring[(k + 1) % 4]))] = {}
+    sub = iter(ids[2:])
+    for k, x in enumerate(ring):
+        h, o = next(sub), next(sub)
+        pg["atoms"][h] = {"atom_type": 1}
+        pg["atoms"][o] = {"atom_type": 9 if k % 2 == 0 else 1}
+        pg["bonds"][frozenset((x, h))] = {}
+        pg["bonds"][frozenset((x, o))] = {}
+        if k % 2 == 0:
+            pg["astereo"][x] = ("Tetrahedral", (x, ring[(k - 1) % 4], ring[(k + 1) % 4], h, o), 1)
+    other = sem.pg_copy(pg)
+    d = other["astereo"][c0]
+    if rng.random() < 0.7:
+        other["astereo"][c0] = (d[0], d[1], -1)
+    return pg, other
